@@ -772,7 +772,14 @@ func (h *paramHarness) nestedKeys(comp string) []string {
 	return out
 }
 
+// isReadable: the file-system oracle of the model (`Env.readable`).  WHAT counts as a readable file (does a directory?) is the
+// validator's own business and not the property's: the oracle is the answer of the code under test's IsReadableFile for the
+// string, with os.Open as the fall-back when that panics.
 func isReadable(s string) bool {
+	verdict := ""
+	if p := protect(func() { verdict = classifyVerdict(specification.IsReadableFile("oracle", s)) }); p == "" {
+		return verdict == "valid"
+	}
 	f, err := os.Open(s)
 	if err != nil {
 		return false
